@@ -6,6 +6,7 @@ out=seeded/RESULTS.txt
 for d in seeded/*/; do
   id=$(basename $d)
   prop=${id%%-*}
+  if grep -q '"neutralised"' $d/meta.json 2>/dev/null; then echo "$id  NEUTRALISED (property holds on the seeded tree after a later repair)" >> $out; continue; fi
   patch=$d/patch.diff
   [ -f $d/patch.rebased.diff ] && patch=$d/patch.rebased.diff
   if ! git -C /repo apply --check /verif/$patch 2>/dev/null; then echo "$id  PATCH-DOES-NOT-APPLY" >> $out; continue; fi
